@@ -6,11 +6,11 @@ import CashewsVerif.Model.Ttl
 Driver for C02: the simple-cache model, the iterator model and the TTL model behind one line protocol.
 
   simple <cond> <ttl>      start a simple-cache case            -> ok
-  script <beh>*            behaviour of execution 0,1,…         -> ok      beh  = (v|n|f<j>|e<c>)[:<dur>]   (beyond the list: v:0)
+  script <beh>*            behaviour of execution 0,1,…         -> ok      beh  = (v|n|f<j>|e<c>|e<c>p<payload>)[:<dur>]   (beyond the list: v:0)
   iter <cond> <ttl>        start an iterator case               -> ok
   runs <run>*              body of run 0,1,…                    -> ok      run  = <step>,<step>,…/<findur>  (steps `-` = none); step = beh
   adv <dt>                 time passes                          -> ok
-  call <k>                 simple: a call with key k            -> model=<res> hit|run
+  call <k>                 simple: a call with key k            -> model=<res> hit|run     res = v<n>.<i> | n | f<j> | x<c>.<n> | x<c>p<payload>.<n>
   it <k>                   iterator: a drained call with key k  -> model=<res>,<res>,…|- hit|run
   ttl <ttl>  [<k> <r>]     ttl_to_seconds of a spelling         -> model=<ticks>|E
 
@@ -55,7 +55,7 @@ def parseSpelling? (s : String) : Option Ttl.Spelling :=
   else (parsePlain? s).map .plain
 
 def resIdx : Res → Nat
-  | .val _ _ => 0 | .none => 1 | .falsy _ => 2 | .exc _ _ => 3 | .junk => 0
+  | .val _ _ => 0 | .none => 1 | .falsy _ => 2 | .exc _ _ _ => 3 | .junk => 0
 
 def parseClasses? (s : String) : Option (List Nat) :=
   if s = "" then some [] else allSome ((s.splitOn "+").map String.toNat?)
@@ -66,7 +66,7 @@ def parseCondRes? : Char → Option CondRes
   | _ => none
 
 def kindIdx : Kind → Nat
-  | .val => 0 | .none => 1 | .falsy _ => 2 | .exc c => 3 + c
+  | .val => 0 | .none => 1 | .falsy _ => 2 | .exc c _ => 3 + c
 
 def parseCnd? (s : String) : Option Decor.Cond :=
   if s = "all" then some .all
@@ -84,7 +84,11 @@ def parseKind? (s : String) : Option Kind :=
   | ['v'] => some .val
   | ['n'] => some .none
   | 'f' :: r => (String.ofList r).toNat?.map .falsy
-  | 'e' :: r => (String.ofList r).toNat?.map .exc
+  | 'e' :: r =>                    -- e<class> (payload 0: a plain class) | e<class>p<payload>
+    match (String.ofList r).splitOn "p" with
+    | [c] => c.toNat?.map (.exc · 0)
+    | [c, p] => do pure (.exc (← c.toNat?) (← p.toNat?))
+    | _ => none
   | _ => none
 
 def parseBeh? (s : String) : Option Beh :=
@@ -107,7 +111,8 @@ def showRes : Res → String
   | .val n i => s!"v{n}.{i}"
   | .none => "n"
   | .falsy j => s!"f{j}"
-  | .exc c n => s!"x{c}.{n}"
+  | .exc c 0 n => s!"x{c}.{n}"
+  | .exc c p n => s!"x{c}p{p}.{n}"
   | .junk => "junk"
 
 inductive Mode where
